@@ -6,20 +6,24 @@ package dlnproof
 
 //@ global one != nil && val(one) == 1
 
+// one repetition's check with challenge bit b: h1^T[k] == Alpha[k] * h2^b (mod N)
+//@ define dlnEq(p, k, b, h1, h2, N) = powmod(val(h1), val(p.T[k]), val(N)) == (val(p.Alpha[k]) * powmod(val(h2), b, val(N))) % val(N)
 //@ define wfDLN(p) = forall k in 0..128 :: (p.Alpha[k] != nil && p.T[k] != nil && val(p.T[k]) >= 0 && val(p.Alpha[k]) >= 0)
 
 //@ func (*Proof).Verify
-//@   props C06 C11 C05
+//@   props C06 C11 C12 C05 C10
 //@   requires h1 != nil && h2 != nil && N != nil
 //@   requires p != nil ==> wfDLN(p)
 //@   ensures result ==> (p != nil && val(N) > 0)
 //@   ensures [C11.bases-in-range-and-distinct] result ==> (val(h1) % val(N) > 1 && val(h2) % val(N) > 1 && val(h1) % val(N) != val(h2) % val(N))
 //@   ensures [C11.all-128-responses-in-range] result ==> (forall k in 0..128 :: (val(p.T[k]) % val(N) > 1 && val(p.Alpha[k]) % val(N) > 1))
+//@   ensures [C12.every-one-of-the-128-repetitions-is-checked] result ==> (forall k in 0..128 :: (dlnEq(p, k, 0, h1, h2, N) || dlnEq(p, k, 1, h1, h2, N)))
 //@   loop 0 invariant forall k in 0..$iter :: val(p.T[k]) % val(N) > 1
 //@   loop 1 invariant forall k in 0..$iter :: val(p.Alpha[k]) % val(N) > 1
 //@   loop 1 invariant forall k in 0..128 :: val(p.T[k]) % val(N) > 1
 //@   loop 2 invariant 0 <= i && i <= 128 && cIBI != nil && fresh(cIBI) && c != nil
 //@   loop 2 invariant forall k in 0..128 :: (val(p.T[k]) % val(N) > 1 && val(p.Alpha[k]) % val(N) > 1)
+//@   loop 2 invariant forall k in 0..i :: (dlnEq(p, k, 0, h1, h2, N) || dlnEq(p, k, 1, h1, h2, N))
 
 //@ func UnmarshalDLNProof
 //@   props C06 C10
